@@ -30,7 +30,8 @@ SameUpToTies(a, b) ==
                                          /\ C.tie_g[a[i]] = C.tie_g[b[i]])
 VariantClauses(v) ==
   IF v.absin # C.ref.absin THEN {"Drv_abstract_input_differs"}
-  ELSE (IF (IF C.ordered THEN SameUpToTies(v.kept, C.ref.kept) ELSE Rng(v.kept) = Rng(C.ref.kept)) THEN {} ELSE {v.clause_kept})
+  ELSE (IF (IF C.ordered THEN (IF v.strict THEN v.kept = C.ref.kept ELSE SameUpToTies(v.kept, C.ref.kept))
+                         ELSE Rng(v.kept) = Rng(C.ref.kept)) THEN {} ELSE {v.clause_kept})
   \cup (IF \A f \in Rng(v.kept) \cap Rng(C.ref.kept) : SamePartition(v.parts[f], C.ref.parts[f]) THEN {} ELSE {v.clause_part})
 Clauses == UNION {VariantClauses(C.variants[i]) : i \in DOMAIN C.variants}
 Init == tid \in 1..Len(Cases) /\ done = FALSE
